@@ -31,7 +31,7 @@ RULE = (
 )
 ASSUMPTIONS = ["dictionary inputs have every key 0..n (as create_bisc_input / read_bisc_file produce)", "oracle: vf/oracle/mesh.py"]
 REQUIRED = ["calls.bisc", "calls.perm_contains_cl_patts_many_shadings", "calls.run_clean_up", "calls.to_sg_format", "calls.maximal_mesh_pattern_of_occurrence",
-            "sound.perms_checked", "complete.perms_checked", "irredundant.cells_checked", "cleanup.bases_checked", "representations.compared", "private_containment.checked", "repeat_calls.compared",
+            "sound.perms_checked", "complete.perms_checked", "irredundant.cells_checked", "cleanup.bases_checked", "representations.compared", "private_containment.checked", "repeat_calls.compared", "default_n.compared",
             "auto_bisc.runs", "auto_bisc.branch.basis_fails_longer_bad_perms", "auto_bisc.branch.basis_fails_good_perms", "auto_bisc.branch.more_patterns_needed"]
 MIN_NONTRIVIAL = 100
 CTX = None
@@ -266,6 +266,21 @@ def chk_run(ctx, members, m, n):
         a, b, c = (sorted((q[0], tuple(sorted(q[1]))) for q in sg_plain(o)) for o in (out_list, out_dict, out_pred))
         if not (a == b == c):
             report("run", CURRENT[0], f"list / dictionary / predicate inputs give different outputs: {len(a)}, {len(b)}, {len(c)} patterns")
+        # n omitted: the longest permutations given decide it - also when some shorter lengths do not occur at all in a list
+        for drop in (None, 0, ctx.rng.randint(0, max(0, n - 1))):
+            sub_members = [p for p in members if drop is None or len(p) != drop]
+            L = max((len(p) for p in sub_members), default=0)
+            if not sub_members or m > L:
+                continue
+            sub_list = [Perm(p) for p in sub_members]
+            sub_dict = {i: [Perm(p) for p in sub_members if len(p) == i] for i in range(L + 1)}
+            with quiet():
+                d_list, d_dict, e_list = BM.bisc(sub_list, m), BM.bisc(sub_dict, m), BM.bisc(sub_list, m, L)
+            ctx.ev()
+            ctx.count("default_n.compared")
+            if not (same(d_list, e_list) and same(d_dict, e_list)):
+                report("run", CURRENT[0], f"bisc with n omitted (list without length {drop}: {len(sg_plain(d_list))} patterns, dictionary: {len(sg_plain(d_dict))}) differs from "
+                       f"n = {L}, the longest length given ({len(sg_plain(e_list))} patterns)")
         SG = out_dict
         # the private containment test on every permutation up to n
         for i in range(n + 1):
